@@ -106,8 +106,7 @@ func checkDefaultOptsFresh(w *World, r *Report, rule string) {
 
 // checkSingleDeadLetter: on every path of the poison-pill sender at most one dead letter can be published.
 func checkSingleDeadLetter(w *World, r *Report, rule string) {
-	for _, name := range []string{"sendPoisonPill", "SendLocal", "send"} {
-		fn := w.Method("actor", "Engine", name)
+	for _, fn := range []*ssa.Function{w.Method("actor", "Engine", "sendPoisonPill"), w.Method("actor", "Engine", "SendLocal"), w.sendAnchors().esend} {
 		if fn == nil {
 			continue
 		}
